@@ -50,6 +50,14 @@ func init() {
 	mutant(&Mutant{Name: "c13-shared-scratch-buffer", Property: "C13", File: "json/json.go",
 		Old: "var (\n\tcommaBytes", New: "var scratch = minify.New()\n\nvar (\n\tcommaBytes",
 		Rule: "R13.6", Construct: "json.scratch"})
+	mutant(&Mutant{Name: "c13-html-global-inline-params", Property: "C13", File: "html/html.go",
+		Old: "\tinlineParams := map[string]string{\"inline\": \"1\"} // per call: minifiers may edit the parameters they receive\n", New: "",
+		Old2: "var GoTemplateDelims = ", New2: "var inlineParams = map[string]string{\"inline\": \"1\"}\n\nvar GoTemplateDelims = ",
+		Rule: "R13.7", Construct: "params handed to a minifier"})
+	mutant(&Mutant{Name: "c13-mediatype-cache-shares-params", Property: "C13", File: "minify.go",
+		Old: "\tmimetype, params := parse.Mediatype([]byte(mediatype))\n\tif minifier, ok := m.literal[string(mimetype)]; ok {", New: "\tmimetype, params := parse.Mediatype([]byte(mediatype))\n\tif v, ok := mediatypeCache.LoadOrStore(mediatype, params); ok {\n\t\tparams = v.(map[string]string)\n\t}\n\tif minifier, ok := m.literal[string(mimetype)]; ok {",
+		Old2: "type M struct {", New2: "var mediatypeCache sync.Map\n\ntype M struct {",
+		Rule: "R13.7", Construct: "Match"})
 	mutant(&Mutant{Name: "c13-env-dependent", Property: "C13", File: "minify.go",
 		Old: "\tmimetype, params := parse.Mediatype([]byte(mediatype))\n\treturn m.MinifyMimetype(", New: "\tif os.Getenv(\"MINIFY_DISABLE\") != \"\" {\n\t\tmediatype = \"\"\n\t}\n\tmimetype, params := parse.Mediatype([]byte(mediatype))\n\treturn m.MinifyMimetype(",
 		Rule: "R13.5", Construct: "minify/no clock"})
@@ -62,6 +70,7 @@ func runC13(c *Ctx) {
 	c.r134()
 	c.r135()
 	c.r136()
+	c.r137()
 }
 
 // R13.6: pooled / shared scratch objects do not escape.
